@@ -163,9 +163,86 @@ pub fn run(ctx: &Ctx) -> i32 {
     };
     let mut s2 = SubReport::new("i32", "A", &rule, b);
     s2.exhaustive = exhaustive;
+    // the mode word on its way through the builder and back: given explicitly (with and without a link target / capabilities)
+    // and taken over from the source file
+    let s3 = {
+        use std::os::unix::fs::PermissionsExt;
+        let dir = crate::ctx::run_dir().join("c18");
+        let _ = std::fs::create_dir_all(&dir);
+        let mut acc = Acc::new();
+        let perms_list = [0u16, 0o644, 0o755, 0o4755, 0o2750, 0o1777, 0o7777];
+        let mut idx = 0u64;
+        for ty in 0..16u16 {
+            for perms in perms_list {
+                let w = (ty << 12) | perms;
+                for extra in ["", "link target", "capabilities"] {
+                    idx += 1;
+                    acc.evals += 1;
+                    let src = dir.join("src");
+                    std::fs::write(&src, b"x").expect("temp");
+                    let case = json!({"kind": "through-builder", "mode_word": format!("{:#o}", w), "with": extra});
+                    let r = catch(|| {
+                        let mut o = rpm::FileOptions::new("/f").mode(w as i32);
+                        if extra == "link target" {
+                            o = o.symlink("somewhere");
+                        }
+                        if extra == "capabilities" {
+                            o = o.caps("cap_chown=p")?;
+                        }
+                        let p = rpm::PackageBuilder::new("t", "1", "MIT", "noarch", "s").compression(rpm::CompressionType::None).with_file(&src, o)?.build()?;
+                        let mut out = vec![];
+                        p.write(&mut out)?;
+                        let q = rpm::Package::parse(&mut &out[..])?;
+                        q.metadata.get_file_entries().map(|v| v.first().map(|f| f.mode))
+                    });
+                    match r {
+                        Err(p) => acc.viol(panic_violation("through-builder", &p, case).rank(idx)),
+                        Ok(Err(_)) => acc.count("rejected by the builder or on re-parse (not judged)"),
+                        Ok(Ok(None)) => acc.count("no file entry"),
+                        Ok(Ok(Some(m))) => {
+                            acc.nontrivial += 1;
+                            if m.raw_mode() != w || m != FileMode::from(w) {
+                                acc.viol(Violation::new("through-builder", format!("mode word {:#o} given to FileOptions::mode ({}) comes back as {:?} ({:#o})", w, if extra.is_empty() { "alone" } else { extra }, m, m.raw_mode()), case).sig("clause", "builder-roundtrip").rank(idx));
+                            }
+                        }
+                    }
+                }
+            }
+        }
+        // inherited from the source file: all twelve permission bits
+        for perms in [0o644u32, 0o600, 0o755, 0o4755, 0o2755, 0o1777, 0o7777, 0o4000, 0o0] {
+            idx += 1;
+            acc.evals += 1;
+            let src = dir.join(format!("inherit-{:o}", perms));
+            std::fs::write(&src, b"x").expect("temp");
+            std::fs::set_permissions(&src, std::fs::Permissions::from_mode(perms)).expect("chmod");
+            let kept = std::fs::metadata(&src).map(|m| m.permissions().mode() & 0o7777).unwrap_or(0);
+            if kept != perms {
+                acc.count("file system did not keep the permission bits (skipped)");
+                continue;
+            }
+            let case = json!({"kind": "inherited", "source_permissions": format!("{:#o}", perms)});
+            let r = catch(|| {
+                let p = rpm::PackageBuilder::new("t", "1", "MIT", "noarch", "s").compression(rpm::CompressionType::None).with_file(&src, rpm::FileOptions::new("/f"))?.build()?;
+                p.metadata.get_file_entries().map(|v| v.first().map(|f| f.mode))
+            });
+            match r {
+                Err(p) => acc.viol(panic_violation("through-builder", &p, case).rank(idx)),
+                Ok(Ok(Some(m))) => {
+                    acc.nontrivial += 1;
+                    if m.raw_mode() as u32 != (0o100000 | perms) {
+                        acc.viol(Violation::new("through-builder", format!("a regular source file with permissions {:#o} is recorded as {:#o}", perms, m.raw_mode()), case).sig("clause", "inherited-mode").rank(idx));
+                    }
+                }
+                Ok(other) => acc.count(&format!("not judged: {:?}", other.map(|_| ()).map_err(|e| e.to_string()))),
+            }
+        }
+        let _ = std::fs::remove_dir_all(&dir);
+        SubReport::new("through-builder", "A", "each of the 16 type nibbles × permissions {0, 0644, 0755, 04755, 02750, 01777, 07777} given to FileOptions::mode — alone, with a link target, with capabilities — built, written, parsed: the recorded word equals the given word; and regular source files with nine permission patterns (incl. set-uid, set-gid, sticky) packaged without an explicit mode: the recorded word is 0100000 | permissions. non-trivial = read back", acc)
+    };
     ctx.finish(
         "exploration",
-        vec![s1, s2],
+        vec![s1, s2, s3],
         &["rustc/std", "the u16 domain is enumerated completely in both tiers; the i32 domain completely in the thorough tier"],
         vec![],
     )
